@@ -905,7 +905,20 @@ func (g *G) plugins() *yaml.Node {
 		return a
 	}
 	usedSrc := map[string]bool{}
-	src := func() string {
+	var order []string
+	src := func() (out string) {
+		defer func() { order = append(order, out) }()
+		// the same plugin a second time under its other spelling (short form earlier, canonical form
+		// now): two entries whose keys coincide once sources are written canonically
+		if g.C.PluginSrc == nil && len(order) > 0 && g.coin("respelled-duplicate", 6) {
+			prev := pick(g, "dupof", order)
+			if c, ok := g.Canon[prev]; ok && c != prev && !usedSrc[c] && c != "" {
+				usedSrc[c] = true
+				g.Canon[c] = c
+				g.feat("plugin-twice-under-two-spellings")
+				return c
+			}
+		}
 		for i := 0; i < 5; i++ {
 			s := g.pluginSrc()
 			if s != "" && !usedSrc[s] && (s != "<<") {
